@@ -441,7 +441,8 @@ int main(int argc, char ** argv)
       const char * old = getenv("ASAN_OPTIONS");
       std::string ao = std::string(old ? old : "") + (old && old[0] ? ":" : "") + "quarantine_size_mb=4";
       setenv("ASAN_OPTIONS", ao.c_str(), 1); setenv("VERIF_C04_CHILD", "1", 1);
-      execv("/proc/self/exe", argv);   // on failure: just carry on with the defaults
+      char self[4096]; const ssize_t n = readlink("/proc/self/exe", self, sizeof(self) - 1);
+      if (n > 0) { self[n] = 0; execv(self, argv); }   // on failure: just carry on with the defaults
    }
    verif::Args args; args.Parse(argc, argv);
    verif::Result res; res.harness = "C04_mirror";
@@ -452,7 +453,7 @@ int main(int argc, char ** argv)
       if (d.Str("part") == "from-prefixes") { seqx::Explorer<MirrorModel> ex(prefixed, args, res, "from-prefixes"); return ex.ReplayFile(d); }
       seqx::Explorer<MirrorModel> ex(empty, args, res, "from-empty"); return ex.ReplayFile(d);
    }
-   int depth = args.Thorough() ? 5 : 4, pdepth = args.Thorough() ? 4 : 3;
+   int depth = args.Thorough() ? 6 : 4, pdepth = args.Thorough() ? 4 : 3;
    uint64_t cap = 3000000;
    if (args.kv.count("depth")) depth = atoi(args.kv["depth"].c_str());
    if (args.kv.count("pdepth")) pdepth = atoi(args.kv["pdepth"].c_str());
